@@ -1,5 +1,6 @@
 import JobShopModel.Env
 import JobShopProofs.EnvInv4
+import JobShopProofs.EnvReward
 import JobShopProofs.Properties.C19
 /-!
 # C18 — the environments honour the Gymnasium contract
@@ -368,5 +369,24 @@ example :
   · intro kf hkf l hl
     simp only [List.mem_cons, List.mem_nil_iff, or_false] at hkf
     rcases hkf with rfl | rfl | rfl <;> simp at hl <;> subst hl <;> decide
+
+
+/-- **C13/C18 (step reward).** The reward an accepted environment step returns is the last entry of the reward
+observer's list after the step, and that list grew by exactly this one entry — provided the reward observer is
+subscribed once (which the constructor ensures) and the dispatcher state is reachable. -/
+theorem C18_step_reward (e : Env) (hs : SubsOK e.w) (o : FObs) (ho : e.w.heap[e.rew]? = some o)
+    (hk : o.kind = .makespanReward ∨ o.kind = .idleReward) (hsub : e.rew ∈ e.w.subs)
+    (hv : Valid e.w.cfg.I) (hc : CInv e.w.cfg.I e.w.s)
+    (job : Nat) (machine : Int) (obs : EObs) (r : Int) (d t : Bool) (av : List OpRef)
+    (h : (e.step job machine).2 = .ok obs r d t av) :
+    ∃ o', (e.step job machine).1.w.heap[e.rew]? = some o' ∧ o'.rewards = o.rewards ++ [r] := by
+  obtain ⟨w', hd, he, _, hr, _⟩ := Env.step_ok h
+  obtain ⟨o', r', h1, h2, h3⟩ := dispatch_appends_one_reward e.w hs e.rew o ho hk hsub job _ _ w' hd hv hc
+  rw [he]
+  refine ⟨o', h1, ?_⟩
+  have : r = r' := by
+    rw [hr]
+    simp only [Env.lastReward, getD_of_some h1, h3, Option.getD_some]
+  rw [this]; exact h2
 
 end JS
